@@ -121,7 +121,8 @@ CLAIMS = {
              "order map, index data); both sides skip exactly the empty children; the backtracking offers every unused position once "
              "and stores a permutation only when complete; ancestors and the path tracker are released on every exit; base cases "
              "(arity, leaves = two atoms that agree, constructors before recursion) and the one-sided equivalence steps are wired "
-             "alike on both sides; the JSON maps keep the orientation; the derived rules' maps use the same slot both ways. Does NOT "
+             "alike on both sides (every domain-only step moves the forward image on and is reachable while the codomain's rule is "
+             "already a leaf); what the matcher remembers is keyed by pairs of nodes; the JSON maps keep the orientation; the derived rules' maps use the same slot both ways. Does NOT "
              "decide that the image is the right object (needs the strategies' own maps) nor reflexivity / symmetry as such.",
         note="Trusted: ast, side inference (the side of an index is the position of the recursive call's argument it occurs in). "
              "Assumes strategy maps are mutually inverse and constructor.equiv is an equivalence relation.",
@@ -129,7 +130,7 @@ CLAIMS = {
     "C13": dict(
         technique='label-kind abstract interpretation + writer/reader convention agreement by side inference + two-sided acceptance rule',
         design='DESIGN.md sections 3 (engines K, B) and 4 (C13)',
-        text="Decides that the specification-building site of the parallel finder tells the extractor the raw start label of the very class the specification is rooted at; that every label handed to representative-keyed structures is a representative; that a stored strategy is re-applied to the class of its own key; that partial extractors index children through the order map; that the equivalence path starts at a raw label; that the finder's permutation convention agrees with its reader, its backtracking offers every unused position once, and its second search settles a pair only when both sides are assigned. Necessary for totality; does not decide validity / isomorphism of the outputs.",
+        text="Decides that the specification-building site of the parallel finder tells the extractor the raw start label of the very class the specification is rooted at; that every label handed to representative-keyed structures is a representative; that a stored strategy is re-applied to the class of its own key; that partial extractors index children through the order map; that the equivalence path starts at a raw label; that the finder's permutation convention agrees with its reader, its backtracking offers every unused position once, and its second search settles a pair only when both sides are assigned; that the matcher follows chains of equivalence rules; that an exhausted queue is a failure only after has_specification() was asked again inside the handler; that the rule paths of two equivalence classes are compared pairwise only at equal length and on every visit of an already placed pair. Necessary for totality; does not decide validity / isomorphism of the outputs.",
         note="Trusted: ast, kind tables (appendix B).",
     ),
     "C14": dict(
@@ -142,8 +143,9 @@ CLAIMS = {
         technique="container-kind/handler agreement, range-guard dominance, writer-set and compression-state rules",
         design='DESIGN.md sections 3 (engine T) and 4 (C15)',
         text="Decides totality of lookups (range / handler discipline), append-only parallel storage with label = "
-             "index, exactly-once compression with an inverse decompression pipeline, and the sanctioned writers of "
-             "the emptiness cache. Each is a literal clause of the property; user-class __eq__/__hash__ are assumed.",
+             "index, exactly-once compression with an inverse decompression pipeline, the sanctioned writers of "
+             "the emptiness cache, that a label handed to the emptiness API is turned into its class before it is asked, and that "
+             "membership of the total label/class mappings is decided by get(...) is not None. Each is a literal clause of the property; user-class __eq__/__hash__ are assumed.",
         note="Trusted: ast and the guard model (appendix B).",
     ),
     "C16": dict(
@@ -151,25 +153,25 @@ CLAIMS = {
         design='DESIGN.md sections 3 (engine Q) and 4 (C16)',
         text="Decides the guard, pairing and ordering clauses of DefaultQueue (hand-out check after dequeue, monotone "
              "ignore set, once-only flags set after the yield inside the same guard, exhaustion before bookkeeping, "
-             "expansion order). Does not decide completeness after draining or termination.",
+             "expansion order, one fresh container per stage, no exit between taking a label from working and carrying it to the next level). Does not decide completeness after draining or termination.",
         note="Trusted: ast and the control model (appendix B).",
     ),
     "C17": dict(
         technique="state-closure picklability/equality analysis + time-taint reachability over the call graph",
         design='DESIGN.md sections 3 (engine R, K5/K6/K18) and 4 (C17)',
-        text="Decides that no attribute in the searcher's state closure is unpicklable, that every class in the closure compares by value, that time-dependent control can only interrupt between work packets, that there is no module-level state, and that specification queries leave the state they read unchanged (cache reset discipline, loss-free one-way table, finders do not modify the dictionary). Does not decide that the continuation visits the same work in the same order.",
+        text="Decides that no attribute in the searcher's state closure is unpicklable, that every class in the closure compares by value, that time-dependent control can only interrupt between work packets, that an optional time limit is compared with None (0 is a limit), that the queue never takes a label out of a set by position (set order does not survive pickling), that the memory-saving store can read every stored rule back (lazy StrategyDoesNotApply handled per item), that there is no module-level or class-level mutable state, and that specification queries leave the state they read unchanged (cache reset discipline, loss-free one-way table, finders do not modify the dictionary). Does not decide that the continuation visits the same work in the same order.",
         note="Trusted: ast, attribute-type table, call graph over resolved callees.",
     ),
     "C18": dict(
         technique="writer/reader key-table agreement per to_jsonable/from_dict pair + equality-purity rule",
         design='DESIGN.md sections 3 (engine J) and 4 (C18)',
-        text="Decides that the key set written equals the key set consumed for every serialisable class, that every constructor setting is written and travels back to the same parameter, that derived forms are rebuilt through their own constructor, that nothing but settings can enter the __dict__ equality compares, that the bijection's nested maps keep their orientation and every pair, and that the specification writes every rule it holds. Does not decide behavioural equality of reloaded objects.",
+        text="Decides that the key set written equals the key set consumed for every serialisable class, that every constructor setting is written and travels back to the same parameter, that derived forms are rebuilt through their own constructor, that nothing but settings can enter the __dict__ equality compares, that the bijection's nested maps keep their orientation and every pair, (two readers of maps written by one helper agree), that a rule rebuilt by re-applying its strategy passes nothing but the saved class, that a class compared by __dict__ rebuilds list-saved attributes as fixed containers to the saved depth, that the specification writes every rule it holds and makes up an empty rule only for a class without one after is_empty() was asserted. Does not decide behavioural equality of reloaded objects.",
         note="Trusted: ast. User classes outside the repository are not covered.",
     ),
     "C19": dict(
         technique='exit-condition and copy-before-share escape analysis of expand_verified / expand_comb_class',
-        design='DESIGN.md sections 3 (rules X, E3) and 4 (C19)',
-        text='Decides the exit condition of expand_verified (only the specification just re-examined is returned, the loop never reads the original), that every rule object of the original passes through copy before reaching the new database, that the new search is rooted and seeded from the same root with aligned labels and the expanded class excluded, that verified labels stay in the queue, and that every reverse form is inserted. Does not decide enumeration preservation.',
+        design='DESIGN.md sections 3 (rules X, E3, A1/A2) and 4 (C19)',
+        text='Decides the exit condition of expand_verified (only the specification just re-examined is returned, the loop never reads the original), that every rule object of the original passes through copy before reaching the new database, that the new search is rooted and seeded from the same root with aligned labels and the expanded class excluded, that verified labels stay in the queue, that every reverse form is inserted, that the attempt without reverse rules falls back to the attempt with them exactly on SpecificationNotFound, and that the inner search records each rule under the label of its own parent (a rule is skipped as trivial only when its own parent is its only child). Does not decide enumeration preservation.',
         note="Trusted: ast.",
     ),
     "C20": dict(
